@@ -95,6 +95,36 @@ func runC12(c *Ctx) {
 							}
 							usedField[f] = true
 							for _, rr := range *x.Referrers() {
+								// membership form: `_, used := set[name]; !used`
+								if ex, isEx := rr.(*ssa.Extract); isEx && x.CommaOk && ex.Index == 1 && ex.Referrers() != nil {
+									for _, r3 := range *ex.Referrers() {
+										var iff *ssa.If
+										neg := false
+										switch y := r3.(type) {
+										case *ssa.If:
+											iff = y
+										case *ssa.UnOp:
+											if y.Op == token.NOT {
+												for _, r4 := range *y.Referrers() {
+													if i2, ok := r4.(*ssa.If); ok {
+														iff, neg = i2, true
+													}
+												}
+											}
+										}
+										if iff == nil {
+											continue
+										}
+										unusedEdge, other := iff.Block().Succs[1], iff.Block().Succs[0]
+										if neg {
+											unusedEdge, other = other, unusedEdge
+										}
+										if (unusedEdge == r.Block() || unusedEdge.Dominates(r.Block())) && !reachableNoLoop(other, r.Block(), iff.Block()) {
+											consulted = fmt.Sprintf("used-set membership test in block %d, unused edge -> block %d", b.Index, unusedEdge.Index)
+										}
+									}
+									continue
+								}
 								bo, ok := rr.(*ssa.BinOp)
 								if !ok || (bo.Op != token.EQL && bo.Op != token.NEQ) {
 									continue
@@ -207,7 +237,7 @@ func runC12(c *Ctx) {
 	c.check(len(lists) == 2 && len(missing) == 0, "C12.3", "const:reserved-lists", "internal/kessoku/const.go", "the reserved lists contain every Go keyword and every predeclared identifier",
 		fmt.Sprintf("%d keywords, %d universe names, lists hold %d names; missing: %v", nKw, len(types.Universe.Names()), len(all), missing))
 	// NewVarPool seeds both lists
-	if nvp := L.fn(genPkg, "NewVarPool"); nvp != nil {
+	if nvp := resolveRole(c, genPkg, "NewVarPool"); nvp != nil {
 		c.seen(fnName(nvp))
 		seeded := map[string]bool{}
 		for _, b := range nvp.Blocks {
@@ -268,7 +298,7 @@ func runC12(c *Ctx) {
 // c12Registration: ParseFile's pre-registration walks.
 func c12Registration(c *Ctx, allocating map[*ssa.Function]bool) {
 	L := c.L
-	pf := L.fn(genPkg, "(*Parser).ParseFile")
+	pf := resolveRole(c, genPkg, "(*Parser).ParseFile")
 	if pf == nil {
 		c.undecided("C12.4", "ParseFile", "method not found")
 		return
@@ -276,7 +306,7 @@ func c12Registration(c *Ctx, allocating map[*ssa.Function]bool) {
 	c.seen(fnName(pf))
 	var find *ssa.Call
 	for _, cs := range callsIn(pf) {
-		if cs.common.StaticCallee() != nil && cs.common.StaticCallee().Name() == "findInjectDirectives" {
+		if calleeIs(c, cs, genPkg, "(*Parser).findInjectDirectives") {
 			find = cs.value()
 		}
 	}
@@ -330,7 +360,7 @@ func c12Registration(c *Ctx, allocating map[*ssa.Function]bool) {
 	}
 	// range operand of the walks is the package's full syntax
 	// processFile: ParseFile before CreateInjector/Generate with one shared pool
-	if proc := L.fn(genPkg, "(*Processor).processFile"); proc != nil {
+	if proc := resolveRole(c, genPkg, "(*Processor).processFile"); proc != nil {
 		c.seen(fnName(proc))
 		var parse *ssa.Call
 		for _, cs := range callsIn(proc) {
@@ -547,7 +577,7 @@ func c12SetMembers(c *Ctx, m ssa.Value) (bool, string) {
 		}
 		n++
 		call, ok := mu.Key.(*ssa.Call)
-		if !ok || call.Common().StaticCallee() == nil || call.Common().StaticCallee().Name() != "outputFileName" {
+		if !ok || call.Common().StaticCallee() == nil || call.Common().StaticCallee() != resolveRole(c, genPkg, "outputFileName") {
 			return false, "a member of the skip set is not outputFileName(...): " + describe(mu.Key)
 		}
 		s := newSym(L, map[string]bool{})
@@ -579,7 +609,7 @@ func c12SetMembersOfAlloc(c *Ctx, al *ssa.Alloc) (bool, string) {
 				}
 				n++
 				call, ok := mu.Key.(*ssa.Call)
-				if !ok || call.Common().StaticCallee() == nil || call.Common().StaticCallee().Name() != "outputFileName" {
+				if !ok || call.Common().StaticCallee() == nil || call.Common().StaticCallee() != resolveRole(c, genPkg, "outputFileName") {
 					return false, "a member of the skip set is not outputFileName(...): " + describe(mu.Key)
 				}
 				s := newSym(L, map[string]bool{})
@@ -594,7 +624,7 @@ func c12SetMembersOfAlloc(c *Ctx, al *ssa.Alloc) (bool, string) {
 		return false, "the skip set has no insertions"
 	}
 	// the output-name function itself appends a fixed suffix before the extension
-	if ofn := L.fn(genPkg, "outputFileName"); ofn != nil {
+	if ofn := resolveRole(c, genPkg, "outputFileName"); ofn != nil {
 		s := newSym(L, map[string]bool{})
 		t := strings.Join(s.evalFn(ofn, 0), "|")
 		if !strings.Contains(t, `"_band"`) || !strings.Contains(t, "path/filepath.Ext(param:") {
